@@ -180,6 +180,13 @@ func checkC11(c *Case, s *Stats) error {
 		s.class("concurrent_builds_phase")
 	}
 
+	// independent loads on separate instances at the same time
+	if len(c.Keys)%2 == 0 && c.Enc != "Dummy" {
+		if err := concurrentLoads(c, fresh, m, s); err != nil {
+			return err
+		}
+	}
+
 	// 1. all workers concurrently on ONE shared instance that no call has touched
 	// yet. This phase runs FIRST: state that is initialised lazily on first use
 	// (per instance, or process-wide) is then initialised under concurrency. Two
@@ -656,5 +663,182 @@ func deepScans(st *trie.SlimTrie, starts []string, base [][]string, want int) er
 			return viol("iterator-interference", "ScanFrom(%s) nested at depth %d of %d yielded %.120q, alone %.120q", q(starts[g]), g, n, nested[g], base[g])
 		}
 	}
+	return nil
+}
+
+// concurrentLoads: independent Unmarshal calls running at the same time, each on
+// its OWN instance and its own copy of the bytes: four goroutines load the valid
+// stream of the case (and check the loaded trie on retained keys), two are
+// offered the same stream under a foreign version string that the process has
+// not seen before (must be rejected as incompatible). Loading is a function of
+// the bytes, whatever else is being loaded.
+func concurrentLoads(c *Case, fresh *trie.SlimTrie, m *Model, s *Stats) error {
+	var stream []byte
+	if err := guard("Marshal", func() error {
+		b, e := fresh.Marshal()
+		if e != nil {
+			return viol("marshal", "Marshal failed: %v", e)
+		}
+		stream = b
+		return nil
+	}); err != nil {
+		return err
+	}
+	if len(stream) < 32 {
+		return nil
+	}
+	h := uint64(len(stream))*0x9e3779b97f4a7c15 ^ uint64(len(c.Keys))<<32
+	for _, k := range c.Keys {
+		h = h*1099511628211 ^ uint64(len(k))
+		if len(k) > 0 {
+			h ^= uint64(k[0])<<8 | uint64(k[len(k)-1])
+		}
+	}
+	foreign := func(i int) []byte {
+		b := append([]byte{}, stream...)
+		v := fmt.Sprintf("%d.%d.%d", 2+h%7, 100+(h>>8)%9000+uint64(i), (h>>24)%100000)
+		for j := 0; j < 16; j++ {
+			b[j] = 0
+		}
+		copy(b[:16], v)
+		return b
+	}
+	const nValid, nForeign = 4, 2
+	errs := make([]error, nValid+nForeign)
+	var wg sync.WaitGroup
+	start := make(chan struct{})
+	for g := 0; g < nValid+nForeign; g++ {
+		g := g
+		wg.Add(1)
+		go func() {
+			defer wg.Done()
+			var buf []byte
+			if g < nValid {
+				buf = append([]byte{}, stream...)
+			} else {
+				buf = foreign(g)
+			}
+			inst, e0 := trie.NewSlimTrie(c.keyOnlyEncoder(), nil, nil)
+			if e0 != nil {
+				errs[g] = fmt.Errorf("harness: cannot create an empty trie: %v", e0)
+				return
+			}
+			<-start
+			errs[g] = guard("Unmarshal (one of several concurrent loads on separate instances)", func() error {
+				e := inst.Unmarshal(buf)
+				if g >= nValid {
+					if e == nil || !isIncompatibleErr(e) {
+						return viol("concurrent-load", "a stream with the foreign version %q, loaded while other instances were loading, gave %v; want ErrIncompatible", strings.TrimRight(string(buf[:16]), "\x00"), e)
+					}
+					return nil
+				}
+				if e != nil {
+					return viol("concurrent-load", "Unmarshal of the trie's own bytes failed while other instances were loading: %v", e)
+				}
+				for i, k := range m.Keys {
+					if i >= 40 && i < len(m.Keys)-10 {
+						continue
+					}
+					if id := inst.GetID(k); id < 0 {
+						return viol("concurrent-load", "a trie loaded while other instances were loading does not find %s", q(k))
+					}
+					if c.HasVals {
+						if v, f := inst.Get(k); !f || !valEq(v, m.Want[i]) {
+							return viol("concurrent-load", "a trie loaded while other instances were loading: Get(%s) = (%v,%v), want (%v,true)", q(k), v, f, m.Want[i])
+						}
+					}
+				}
+				return nil
+			})
+		}()
+	}
+	close(start)
+	wg.Wait()
+	for _, e := range errs {
+		if e != nil {
+			return e
+		}
+	}
+	s.class("concurrent_loads_on_separate_instances")
+	s.calls(nValid + nForeign)
+	return nil
+}
+
+// concurrentFilterSizes (C17): filter-mode indexes built at the same time in
+// different goroutines must have exactly the size they have when built alone
+// (and stay within the bound). The key sets share node shapes on purpose: a
+// small set with one 10-label node, large sets with thousands of nodes of the
+// same label bitmap, and the sets of concurrentBuildCases.
+func concurrentFilterSizes(round int, s *Stats) error {
+	r := sm64{uint64(round*7919 + 3)}
+	labels := []byte{0x00, 0x10, 0x20, 0x30, 0x40, 0x50, 0x60, 0x70, 0x80, 0x90}
+	nl := 2 + (round*3)%9 // 2..10 labels per node in this round
+	var sets [][]string
+	// small sets: one node with nl labels (repeated: they are rebuilt many times)
+	small := make([]string, 0, nl)
+	for _, l := range labels[:nl] {
+		small = append(small, string([]byte{l}))
+	}
+	sets = append(sets, small)
+	// large sets: thousands of nodes with the same label bitmap below random 2-byte prefixes
+	for g := 0; g < 3; g++ {
+		set := map[string]struct{}{}
+		groups := 3000 + r.intn(8000)
+		for len(set) < groups*nl {
+			p := string([]byte{byte(r.next()), byte(r.next()), byte(g)})
+			for _, l := range labels[:nl] {
+				set[p+string([]byte{l})] = struct{}{}
+			}
+		}
+		sets = append(sets, sortedSet(set))
+	}
+	for _, cc := range concurrentBuildCases(round)[:3] {
+		sets = append(sets, cc.keys())
+	}
+	alone := make([]int, len(sets))
+	for i, ks := range sets {
+		sz, _, err := filterSize(ks)
+		if err != nil {
+			return err
+		}
+		if sz > 8*len(ks)+256 {
+			return viol("size-bound", "%d keys serialize to %d bytes in filter mode: more than 8 bytes per key + 256", len(ks), sz)
+		}
+		alone[i] = sz
+	}
+	errs := make([]error, len(sets))
+	var wg sync.WaitGroup
+	start := make(chan struct{})
+	for i := range sets {
+		i := i
+		wg.Add(1)
+		go func() {
+			defer wg.Done()
+			reps := 2
+			if len(sets[i]) < 100 {
+				reps = 400
+			}
+			<-start
+			for rep := 0; rep < reps && errs[i] == nil; rep++ {
+				sz, _, err := filterSize(sets[i])
+				switch {
+				case err != nil:
+					errs[i] = err
+				case sz != alone[i]:
+					errs[i] = viol("size-differs", "%d keys serialize to %d bytes in filter mode when built while other tries are being built, %d bytes when built alone (bound %d)", len(sets[i]), sz, alone[i], 8*len(sets[i])+256)
+				}
+			}
+		}()
+	}
+	close(start)
+	wg.Wait()
+	for _, e := range errs {
+		if e != nil {
+			return e
+		}
+	}
+	s.doneHash(uint64(round)|1<<42, true)
+	s.calls(len(sets))
+	s.class("concurrent_filter_mode_builds_same_size_as_alone")
 	return nil
 }
